@@ -1,0 +1,14 @@
+//go:build !verif
+
+// Package verifhook provides observation/yield points for external runtime
+// monitors. Without the `verif` build tag all functions are no-ops.
+package verifhook
+
+// Enabled reports whether hooks are compiled in.
+const Enabled = false
+
+// Set is a no-op without the verif build tag.
+func Set(func(name string)) {}
+
+// Point is a no-op without the verif build tag.
+func Point(string) {}
